@@ -45,3 +45,310 @@ pub fn cmp_full() {
     std::mem::forget(x);
     std::mem::forget(y);
 }
+
+
+use crate::number::big_number::verif_bn::{bn_i, bn_v, m_add, m_div, m_gcd16, m_gcd_contract, m_mul, m_new1, m_rem, m_sub, ref_gcd, GCD_LOG};
+
+// @h prop=C07 unwind=8 timeout=120 what=partial_cmp_is_None_iff_a_NaN_is_involved(both_NaN_encodings)
+#[cfg_attr(kani, kani::proof)]
+pub fn cmp_nan() {
+    let (a, b, c, d) = (any_u32(), any_u32(), any_u32(), any_u32());
+    let (sa, sc) = (any_bool(), any_bool());
+    assume(a != 0 || sa);
+    assume(c != 0 || sc);
+    assume(b == 0 || d == 0);
+    // NaN as the interpreter can build it: +-1 / 0
+    assume(b != 0 || a == 1);
+    assume(d != 0 || c == 1);
+    let x = Num { up: bn1(sa, a), down: bn1(true, b) };
+    let y = Num { up: bn1(sc, c), down: bn1(true, d) };
+    assert!(x.partial_cmp(&y).is_none());
+    assert!(y.partial_cmp(&x).is_none());
+    vcover!();
+    std::mem::forget((x, y));
+}
+
+// @h prop=C07 unwind=10 timeout=600 mem=12 what=integers_with_two-limb_numerators,denominator_1,both_signs
+#[cfg_attr(kani, kani::proof)]
+pub fn cmp_2limb_int() {
+    let a: [u32; 2] = any_u32_arr();
+    let c: [u32; 2] = any_u32_arr();
+    let (sa, sc) = (any_bool(), any_bool());
+    assume(a[1] != 0 && c[1] != 0);
+    let x = Num { up: BigNum::verif_raw(sa, a.to_vec()), down: bn1(true, 1) };
+    let y = Num { up: BigNum::verif_raw(sc, c.to_vec()), down: bn1(true, 1) };
+    let vx = if sa { val128(&a) as i128 } else { -(val128(&a) as i128) };
+    let vy = if sc { val128(&c) as i128 } else { -(val128(&c) as i128) };
+    assert!(x.partial_cmp(&y) == Some(vx.cmp(&vy)));
+    vcover!();
+    std::mem::forget((x, y));
+}
+
+// vacuity twin (must FAIL)
+// @h prop=C07 unwind=8 timeout=300 kind=twin
+#[cfg_attr(kani, kani::proof)]
+pub fn twin_cmp() {
+    let (a, c) = (any_u32(), any_u32());
+    let x = Num { up: bn1(true, a), down: bn1(true, 1) };
+    let y = Num { up: bn1(true, c), down: bn1(true, 1) };
+    let got = x.partial_cmp(&y);
+    assert!(got == Some(a.cmp(&c)));
+    assert!(false);
+}
+
+// ===========================================================================
+// C06 - rationals exact, canonical, NaN absorbing.
+// Real Num code over exact one-limb models of BigNum::{add,mul,div,gcd} (DESIGN rule 4);
+// the gcd model returns the right magnitude with an ARBITRARY sign (all C05 promises).
+// ===========================================================================
+/// signed product from magnitudes, same multiplier shape and operand order as the one-limb
+/// model of BigNum::mul (so that the solver compares identical circuits)
+fn smul(x: i64, y: i64) -> i64 {
+    let p = ((x.unsigned_abs() as u32) as u64) * ((y.unsigned_abs() as u32) as u64);
+    if (x < 0) != (y < 0) {
+        -(p as i64)
+    } else {
+        p as i64
+    }
+}
+pub(crate) fn num_raw(n: i64, d: u32) -> Num {
+    Num { up: bn_i(n), down: bn1(true, d) }
+}
+/// canonical form of a non-NaN result `r` for the unreduced value U/D (D != 0), given g = gcd(|U|,|D|):
+/// r = (sign * |U|/g) / (|D|/g), denominator positive, zero numerator non-negative
+fn canonical_for(r: &Num, u: i64, d: i64, g: i64) -> bool {
+    if r.up.verif_limbs().len() != 1 || r.down.verif_limbs().len() != 1 {
+        return false;
+    }
+    let (ru, rd) = (r.up.verif_limbs()[0], r.down.verif_limbs()[0]);
+    let neg = (u < 0) != (d < 0) && u != 0;
+    r.down.verif_pos()
+        && rd != 0
+        && (g as u32 as u64) * (rd as u64) == d.unsigned_abs()
+        && (g as u32 as u64) * (ru as u64) == u.unsigned_abs()
+        && r.up.verif_pos() == !neg
+}
+#[cfg(kani)]
+fn logged_gcd(_a: i64, _b: i64) -> i64 {
+    unsafe { GCD_LOG as i64 }
+}
+#[cfg(not(kani))]
+fn logged_gcd(a: i64, b: i64) -> i64 {
+    ref_gcd(a.unsigned_abs() as u32, b.unsigned_abs() as u32) as i64
+}
+
+// @h prop=C06 unwind=26 timeout=600 mem=12 what=Num::add:value_a/b+c/d_exact,lowest_terms,positive_denominator;|a|,|c|<=127,b,d<=255,all_signs,common_factors
+#[cfg_attr(kani, kani::proof)]
+#[cfg_attr(kani, kani::stub(BigNum::add, m_add))]
+#[cfg_attr(kani, kani::stub(BigNum::mul, m_mul))]
+#[cfg_attr(kani, kani::stub(BigNum::div, m_div))]
+#[cfg_attr(kani, kani::stub(BigNum::gcd, m_gcd16))]
+pub fn num_add() {
+    let (a, b, c, d) = (any_i8(), any_u8(), any_i8(), any_u8());
+    assume(b != 0 && d != 0 && b < 16 && d < 16 && a > -16 && a < 16 && c > -16 && c < 16);
+    let x = num_raw(a as i64, b as u32);
+    let y = num_raw(c as i64, d as u32);
+    let r = Num::add(&x, &y);
+    let u = smul(a as i64, d as i64) + smul(b as i64, c as i64);
+    let dd = smul(b as i64, d as i64);
+    let g = logged_gcd(u, dd);
+    assert!(canonical_for(&r, u, dd, g));
+    let mut z = x.clone();
+    z += &y;
+    assert!(z == r);
+    vcover!();
+    std::mem::forget((x, y, r, z));
+}
+
+// @h prop=C06 unwind=26 timeout=600 mem=12 what=Num::mul:value_exact,lowest_terms,positive_denominator;|a|,|c|<=127,b,d<=255
+#[cfg_attr(kani, kani::proof)]
+#[cfg_attr(kani, kani::stub(BigNum::add, m_add))]
+#[cfg_attr(kani, kani::stub(BigNum::mul, m_mul))]
+#[cfg_attr(kani, kani::stub(BigNum::div, m_div))]
+#[cfg_attr(kani, kani::stub(BigNum::gcd, m_gcd16))]
+pub fn num_mul() {
+    let (a, b, c, d) = (any_i8(), any_u8(), any_i8(), any_u8());
+    assume(b != 0 && d != 0 && b < 16 && d < 16 && a > -16 && a < 16 && c > -16 && c < 16);
+    let x = num_raw(a as i64, b as u32);
+    let y = num_raw(c as i64, d as u32);
+    let r = Num::mul(&x, &y);
+    let u = smul(a as i64, c as i64);
+    let dd = smul(b as i64, d as i64);
+    let g = logged_gcd(u, dd);
+    assert!(canonical_for(&r, u, dd, g));
+    let mut z = x.clone();
+    z *= &y;
+    assert!(z == r);
+    vcover!();
+    std::mem::forget((x, y, r, z));
+}
+
+// @h prop=C06 unwind=26 timeout=600 mem=12 what=constructors_Num::new/from_big_num->optimize():15-bit_numerator,denominator_of_either_sign
+#[cfg_attr(kani, kani::proof)]
+#[cfg_attr(kani, kani::stub(BigNum::div, m_div))]
+#[cfg_attr(kani, kani::stub(BigNum::gcd, m_gcd16))]
+pub fn num_optimize() {
+    let (n, d) = (any_i16(), any_i16());
+    assume(d != 0 && n > -128 && n < 128 && d > -128 && d < 128);
+    let r = Num::from_big_num(bn_i(n as i64), bn_i(d as i64));
+    let g = logged_gcd(n as i64, d as i64);
+    assert!(canonical_for(&r, n as i64, d as i64, g));
+    vcover!();
+    std::mem::forget(r);
+}
+
+
+// ---- contract-model variants: wide ranges, gcd replaced by its C05 contract (any common
+// divisor g with exact cofactors, any sign).  Proves the formula + reduction + sign wiring.
+// Inputs are drawn as (zero-extended magnitude, sign) so that the multipliers see constant-zero
+// high bits.
+fn sgn(pos: bool, m: u32) -> i64 {
+    if pos {
+        m as i64
+    } else {
+        -(m as i64)
+    }
+}
+fn num_sm(pos: bool, m: u32, d: u32) -> Num {
+    Num { up: bn1(pos || m == 0, m), down: bn1(true, d) }
+}
+macro_rules! num_wide {
+    ($name:ident, $anyf:ident, $op:ident, $u:expr) => {
+        #[cfg_attr(kani, kani::proof)]
+        #[cfg_attr(kani, kani::stub(BigNum::add, m_add))]
+        #[cfg_attr(kani, kani::stub(BigNum::mul, m_mul))]
+        #[cfg_attr(kani, kani::stub(BigNum::div, m_div))]
+        #[cfg_attr(kani, kani::stub(BigNum::gcd, m_gcd_contract))]
+        pub fn $name() {
+            let (a, b, c, d) = ($anyf() as u32, $anyf() as u32, $anyf() as u32, $anyf() as u32);
+            let (sa, sc) = (any_bool(), any_bool());
+            assume(b != 0 && d != 0);
+            let x = num_sm(sa, a, b);
+            let y = num_sm(sc, c, d);
+            let r = Num::$op(&x, &y);
+            let f: fn(i64, i64, i64, i64) -> i64 = $u;
+            let u = f(sgn(sa, a), b as i64, sgn(sc, c), d as i64);
+            let dd = smul(b as i64, d as i64);
+            let g = logged_gcd(u, dd);
+            assert!(canonical_for(&r, u, dd, g));
+            vcover!();
+            std::mem::forget((x, y, r));
+        }
+    };
+}
+// @h prop=C06 unwind=8 timeout=600 mem=12 replay=optional stubs=BigNum::{add,mul,div}->one-limb_models,BigNum::gcd->contract_model what=Num::add_over_gcd_contract_model:8-bit_magnitudes,all_signs
+num_wide!(num_add_wide8, any_u8, add, |a, b, c, d| smul(a, d) + smul(b, c));
+// @h prop=C06 unwind=8 timeout=600 mem=12 replay=optional stubs=BigNum::{add,mul,div}->one-limb_models,BigNum::gcd->contract_model what=Num::mul_over_gcd_contract_model:8-bit_magnitudes,all_signs
+num_wide!(num_mul_wide8, any_u8, mul, |a, _b, c, _d| smul(a, c));
+// @h prop=C06 unwind=8 timeout=1800 mem=12 tier=thorough kind=stretch replay=optional stubs=BigNum::{add,mul,div}->one-limb_models,BigNum::gcd->contract_model what=Num::add_over_gcd_contract_model:15-bit_magnitudes
+num_wide!(num_add_wide15, any_u16, add, |a, b, c, d| smul(a, d) + smul(b, c));
+// @h prop=C06 unwind=8 timeout=1800 mem=12 tier=thorough kind=stretch replay=optional stubs=BigNum::{add,mul,div}->one-limb_models,BigNum::gcd->contract_model what=Num::mul_over_gcd_contract_model:15-bit_magnitudes
+num_wide!(num_mul_wide15, any_u16, mul, |a, _b, c, _d| smul(a, c));
+
+// @h prop=C06 unwind=8 timeout=600 mem=12 replay=optional what=optimize()_over_gcd_contract_model:16-bit_magnitudes,denominator_of_either_sign
+#[cfg_attr(kani, kani::proof)]
+#[cfg_attr(kani, kani::stub(BigNum::div, m_div))]
+#[cfg_attr(kani, kani::stub(BigNum::gcd, m_gcd_contract))]
+pub fn num_optimize_wide() {
+    let (n, d, sn, sd) = (any_u16() as u32, any_u16() as u32, any_bool(), any_bool());
+    assume(d != 0);
+    let r = Num::from_big_num(bn1(sn || n == 0, n), bn1(sd, d));
+    let (vn, vd) = (sgn(sn, n), sgn(sd, d));
+    let g = logged_gcd(vn, vd);
+    assert!(canonical_for(&r, vn, vd, g));
+    vcover!();
+    std::mem::forget(r);
+}
+
+// @h prop=C06 unwind=8 timeout=300 what=flip(reciprocal;0->NaN;sign_on_numerator),neg,minus,is_pos,is_nan;one-limb_values
+#[cfg_attr(kani, kani::proof)]
+pub fn flip_neg_ispos() {
+    let (n, d, pos) = (any_u32(), any_u32(), any_bool());
+    assume(d != 0);
+    assume(pos || n != 0);
+    let x = Num { up: bn1(pos, n), down: bn1(true, d) };
+    assert!(!x.is_nan());
+    assert!(x.is_pos() == pos);
+    let mut f = x.clone();
+    f.flip();
+    if n == 0 {
+        assert!(f.is_nan());
+        // zero in canonical form is 0/1; its reciprocal is the NaN value itself
+        assert!(d != 1 || f == Num::nan());
+        assert!(!f.is_pos());
+    } else {
+        // d/n with the sign moved to the numerator
+        assert!(f.down.verif_pos() && f.down.verif_limbs().len() == 1 && f.down.verif_limbs()[0] == n);
+        assert!(f.up.verif_pos() == pos && f.up.verif_limbs().len() == 1 && f.up.verif_limbs()[0] == d);
+    }
+    let m = Num::neg(&x);
+    assert!(m.down == x.down && m.up.verif_limbs()[0] == n && m.up.verif_pos() == (n == 0 || !pos));
+    let mut m2 = x.clone();
+    m2.minus();
+    assert!(m2 == m);
+    let m3 = -&x;
+    assert!(m3 == m);
+    vcover!();
+    std::mem::forget((x, f, m, m2, m3));
+}
+
+// @h prop=C06 unwind=8 timeout=300 what=floor_of_non-negative_values:integer_path_real,fraction_path_over_modelled_div
+#[cfg_attr(kani, kani::proof)]
+#[cfg_attr(kani, kani::stub(BigNum::div, m_div))]
+pub fn floor_nonneg() {
+    let (n, d) = (any_u32(), any_u32());
+    assume(d != 0);
+    let x = Num { up: bn1(true, n), down: bn1(true, d) };
+    let f = x.floor();
+    assert!(f.verif_pos() && f.verif_limbs().len() == 1);
+    let q = f.verif_limbs()[0];
+    // q = floor(n/d)  <=>  q*d <= n < (q+1)*d
+    assert!((q as u64) * (d as u64) <= n as u64 && (n as u64) - (q as u64) * (d as u64) < d as u64);
+    vcover!();
+    std::mem::forget((x, f));
+}
+
+// @h prop=C06 unwind=8 timeout=300 what=NaN(1/0_and_-1/0)_absorbs_add/mul_on_either_side;flip/neg/minus_of_NaN_are_NaN;is_pos_false
+#[cfg_attr(kani, kani::proof)]
+#[cfg_attr(kani, kani::stub(BigNum::add, m_add))]
+#[cfg_attr(kani, kani::stub(BigNum::mul, m_mul))]
+#[cfg_attr(kani, kani::stub(BigNum::div, m_div))]
+#[cfg_attr(kani, kani::stub(BigNum::gcd, m_gcd16))]
+pub fn nan_absorbing() {
+    let (a, b, sn, left, other_nan) = (any_i8(), any_u8(), any_bool(), any_bool(), any_bool());
+    assume(a != i8::MIN);
+    assume(b != 0 || a == 1 || a == -1);
+    assume(other_nan == (b == 0));
+    let nan = Num { up: bn1(sn, 1), down: bn1(true, 0) };
+    let y = num_raw(a as i64, b as u32);
+    assert!(nan.is_nan() && !nan.is_pos());
+    let (s, p) = if left { (Num::add(&nan, &y), Num::mul(&nan, &y)) } else { (Num::add(&y, &nan), Num::mul(&y, &nan)) };
+    assert!(s.is_nan() && p.is_nan() && s == Num::nan() && p == Num::nan());
+    let mut f = nan.clone();
+    f.flip();
+    assert!(f.is_nan());
+    let n2 = Num::neg(&nan);
+    assert!(n2.is_nan() && !n2.is_pos());
+    let mut n3 = nan.clone();
+    n3.minus();
+    assert!(n3.is_nan() && !n3.is_pos());
+    vcover!();
+    std::mem::forget((nan, y, s, p, f, n2, n3));
+}
+
+// vacuity twin (must FAIL)
+// @h prop=C06 unwind=26 timeout=600 mem=12 kind=twin
+#[cfg_attr(kani, kani::proof)]
+#[cfg_attr(kani, kani::stub(BigNum::add, m_add))]
+#[cfg_attr(kani, kani::stub(BigNum::mul, m_mul))]
+#[cfg_attr(kani, kani::stub(BigNum::div, m_div))]
+#[cfg_attr(kani, kani::stub(BigNum::gcd, m_gcd16))]
+pub fn twin_num_add() {
+    let (a, b, c, d) = (any_i8(), any_u8(), any_i8(), any_u8());
+    assume(b != 0 && d != 0 && a != i8::MIN && c != i8::MIN);
+    let x = num_raw(a as i64, b as u32);
+    let y = num_raw(c as i64, d as u32);
+    let r = Num::add(&x, &y);
+    assert!(!r.is_nan());
+    assert!(false);
+}
